@@ -352,6 +352,10 @@ class Diagram(cat.Arrow):
                     raise TypeError(messages.type_err(Diagram, box))
                 if not isinstance(off, int):
                     raise TypeError(messages.type_err(int, off))
+                scan = layers.cod if layers else dom
+                if not 0 <= off <= len(scan) - len(box.dom):
+                    raise cat.AxiomError(
+                        messages.does_not_compose(layers, box))
                 left = layers.cod[:off] if layers else dom[:off]
                 right = layers.cod[off + len(box.dom):]\
                     if layers else dom[off + len(box.dom):]
